@@ -272,6 +272,13 @@ class World(StackWorld):
             cfg["local_max"] = 2 ** 24
         sess = self.new_session("E")
         e, peer = self.build_stack_raw("rs", is_server, lambda: sess, [make_ser(ser)], opts)
+        if self.fwname == "aio" and ch.flag("aio-rs-small-announce", 0.6):
+            # labelled white-box knob: the asyncio RawSocket protocols have no option for the maximum they announce
+            # (fixed 2^24); set the instance attributes their __init__ computes
+            lexp = ch.pick((1, 2, 3), "aio-rs-exp")
+            e.p._length_exp = lexp
+            e.p.max_length = 2 ** (9 + lexp)
+            cfg["local_max"] = 2 ** (9 + lexp)
         self.peer_limit = 2 ** (9 + exp)
         self.local_announced = 2 ** _ceil_log2(cfg["local_max"])
         self.base = 4  # the endpoint's own handshake octets come first on the wire
@@ -302,7 +309,12 @@ class World(StackWorld):
         self.peer_frames = []
         if ch.flag("peer-oversize", 0.6):
             over = self.local_announced + ch.pick((1, 2, 1000), "over")
-            if over <= 2 ** 24:
+            if over <= 2 ** 24 and over < 100000 and ch.flag("oversize-frame-complete", 0.4):
+                # the whole over-long frame - a perfectly valid message - is there at once: refused all the same
+                payload = make_ser(ser).serialize(M.Publish(7, "com.ex.oversize", args=["o" * over]))[0]
+                self.peer_frames.append(("oversize-complete", struct.pack("!L", len(payload)) + payload, len(payload)))
+                self.run.probe("peer-oversize-frame-complete")
+            elif over <= 2 ** 24:
                 # only the 4-octet prefix and a few payload octets: the verdict must not wait for the payload
                 self.peer_frames.append(("oversize", struct.pack("!L", over) + b"x" * 8, over))
 
@@ -554,6 +566,9 @@ class World(StackWorld):
                     closing = t.is_gone() or getattr(t, "aborting", False) or getattr(t, "disconnecting", False) or getattr(t, "_closing", False)
                     if not closing:
                         self.run.violate("C13.reject-over-local", "oversize-frame-not-rejected", "declared %d, local max %d" % (
+                            self.oversize_declared, self.local_announced))
+                    if any(getattr(m, "topic", None) == "com.ex.oversize" for m in self.sessions[0].msgs):
+                        self.run.violate("C13.reject-over-local", "oversize-frame-delivered-to-the-session", "declared %d, local max %d" % (
                             self.oversize_declared, self.local_announced))
 
     def scan_rs_frames(self, data, limit, who):
